@@ -48,6 +48,37 @@ pub fn digests_of(jobs: &[(Cfg, Option<Vec<u8>>, u64)]) -> Vec<u64> {
         .collect()
 }
 
+fn pair_configs() -> Vec<Cfg> {
+    let mut v: Vec<Cfg> = (0..=5u8).map(Cfg::new).collect();
+    v.push(Cfg::new(2).flags(true, true).muts(&FULL, 0.5, true));
+    v.push(Cfg::new(5).flags(true, true).range(10, 30));
+    v.push(Cfg::new(0).muts(&FULL, 1.0, false).range(10, 30));
+    v
+}
+
+fn pair_digests(cfg: &Cfg) -> Vec<u64> {
+    let mut d = vec![];
+    for s in 0..6u64 {
+        d.push(run_seed(cfg, s, false).bytes().map(digest).unwrap_or(0));
+    }
+    for i in [vec![], vec![0xffu8; 40], (1..=80u8).collect::<Vec<u8>>()] {
+        d.push(run_bytes(cfg, &i, false, false).bytes().map(digest).unwrap_or(0));
+    }
+    d
+}
+
+/// `verif-harness --pair <a|none> <b>`: in a fresh process, use configuration a (if any), then print the digests of b
+pub fn print_pair(a: &str, b: &str) {
+    let cfgs = pair_configs();
+    if let Ok(i) = a.parse::<usize>() {
+        let _ = pair_digests(&cfgs[i]);
+    }
+    let j: usize = b.parse().unwrap();
+    for d in pair_digests(&cfgs[j]) {
+        println!("{d:016x}");
+    }
+}
+
 /// `verif-harness --digests quick|thorough` : print the digest list (used from child processes)
 pub fn print_digests(tier: &str) {
     let jobs = job_list(tier == "quick");
@@ -204,6 +235,59 @@ pub fn c07(tier: &str) -> i32 {
             }
         }
     }
+    // large memos (more than 256 entries: the 1-byte forms run out and code paths change): a few hash seeds suffice,
+    // two seeds practically never order 257 keys the same way
+    for p in 1..=5u8 {
+        if quick && !(p == 1 || p == 4) {
+            continue;
+        }
+        let put: Vec<u8> = if p >= 4 { vec![0x94] } else { vec![b'q', b'r', b'p'] };
+        let n = 258usize;
+        let cfg = Cfg::new(p).flags(true, true);
+        let ex = Explorer { base_cfg: cfg.clone(), opts: Opts::default(), monitor: &noop, xval_full: Default::default() };
+        for get in [b'g', b'h', b'j'] {
+            let mut plan: Vec<Vec<u8>> = vec![vec![b'N']];
+            plan.extend(std::iter::repeat(put.clone()).take(n));
+            plan.push(vec![get]);
+            verif::set_memo_hash_seed(0);
+            let Ok(base) = scenario(&ex, false, &plan) else { continue };
+            let (_c, _r, tr) = ex.run(&base.script, plan.len());
+            let Some(d) = tr.steps.last().and_then(|st| st.draws.iter().find(|d| d.method == "gen_range" && !d.in_mutation).cloned()) else { continue };
+            let cnt = d.b - d.a;
+            for idx in [0u64, 1, cnt / 2, cnt - 1] {
+                let mut script = base.script.clone();
+                script.truncate(d.off);
+                script.extend_from_slice(&crate::script::enc_index(idx, cnt));
+                let mut c = cfg.clone();
+                c.min = plan.len();
+                c.max = plan.len();
+                let mut outs: BTreeSet<Vec<u8>> = BTreeSet::new();
+                let mut orders: BTreeSet<Vec<usize>> = BTreeSet::new();
+                let big_seeds = if quick { 6 } else { 32 };
+                for hs in 0..big_seeds {
+                    verif::set_memo_hash_seed(hs);
+                    let mut g = c.build();
+                    let mut data = script.clone();
+                    data.resize(script.len() + 256, 0);
+                    let r = g.generate_from_arbitrary(&data).unwrap_or_default();
+                    hash_runs += 1;
+                    orders.insert(verif::memo_key_order(&g));
+                    outs.insert(r);
+                }
+                verif::set_memo_hash_seed(0);
+                if orders.len() < 2 {
+                    rep.machinery.push(format!("memo of {n} entries: hash seeds did not change the iteration order"));
+                }
+                if outs.len() > 1 {
+                    rep.finding_raw(
+                        &format!("hash-order-dependent:large-memo:{}", lexer::name(get)),
+                        &format!("{}: {} distinct outputs under {big_seeds} memo hash seeds with a {n}-entry memo, script {}..", c.describe(), outs.len(), lexer::hex(&script[..script.len().min(24)])),
+                        json!({"kind":"hash-order","config":c.to_json(),"script_hex":lexer::hex(&script),"hash_seeds":big_seeds}),
+                    );
+                }
+            }
+        }
+    }
     for k in [2usize, 3] {
         let seen = orders_seen.get(&k).cloned().unwrap_or_default();
         if !perms_seen_all(k, &seen) {
@@ -252,7 +336,7 @@ pub fn c07(tier: &str) -> i32 {
     let mut total_sched = 0u64;
     for (label, works) in &works_sets {
         let solo: Vec<Result<Vec<u8>, String>> = works.iter().map(|w| w.run_solo()).collect();
-        let bounds: Vec<usize> = if works.len() >= 3 { vec![0, 1, if quick { 1 } else { 2 }] } else { vec![0, 1, 2, if quick { 2 } else { 3 }] };
+        let bounds: Vec<usize> = if works.len() >= 3 { if quick { vec![0, 1] } else { vec![0, 1, 2] } } else if quick { vec![0, 1, 2] } else { vec![0, 1, 2, 3] };
         let mut last = None;
         for b in bounds {
             let mut bad: Vec<(Vec<usize>, usize)> = vec![];
@@ -329,6 +413,36 @@ pub fn c07(tier: &str) -> i32 {
     rep.transitions += (jobs.len() * (2 + nproc)) as u64;
     rep.set("digest_jobs", json!(jobs.len()));
     rep.set("fresh_processes", json!(nproc));
+
+    // cross-generator histories in fresh processes: using one configuration must not change what another returns
+    // (process-wide caches, lazily built tables): every ordered pair of the configuration set
+    {
+        let cfgs = pair_configs();
+        let n = cfgs.len();
+        let run = |a: Option<usize>, b: usize| -> Result<Vec<String>, String> {
+            let o = Command::new(&exe).arg("--pair").arg(a.map(|x| x.to_string()).unwrap_or("none".into())).arg(b.to_string()).output().map_err(|e| e.to_string())?;
+            if !o.status.success() {
+                return Err(format!("exit {:?}", o.status.code()));
+            }
+            Ok(String::from_utf8_lossy(&o.stdout).lines().map(|l| l.to_string()).collect())
+        };
+        let alone: Vec<Result<Vec<String>, String>> = (0..n).into_par_iter().map(|b| run(None, b)).collect();
+        let pairs: Vec<(usize, usize)> = (0..n).flat_map(|a| (0..n).filter(move |b| *b != a).map(move |b| (a, b))).collect();
+        let res: Vec<((usize, usize), Result<Vec<String>, String>)> = pairs.par_iter().map(|(a, b)| ((*a, *b), run(Some(*a), *b))).collect();
+        for ((a, b), r) in res {
+            match (&r, &alone[b]) {
+                (Ok(x), Ok(y)) if x == y => {}
+                (Ok(_), Ok(_)) => rep.finding_raw(
+                    "cross-generator-history",
+                    &format!("in a fresh process, generating with [{}] first changes what [{}] returns", cfgs[a].describe(), cfgs[b].describe()),
+                    json!({"kind":"pair","first":cfgs[a].to_json(),"then":cfgs[b].to_json(),"argv":["--pair", a.to_string(), b.to_string()]}),
+                ),
+                (e1, e2) => rep.machinery.push(format!("pair child failed: {e1:?} {e2:?}")),
+            }
+        }
+        rep.transitions += (pairs.len() + n) as u64;
+        rep.set("cross_generator_pairs_in_fresh_processes", json!(pairs.len()));
+    }
 
     // CLI batch mode under different worker counts (hooks-off release binary built by bin/check)
     let cli = std::env::var("VERIF_CLI").unwrap_or_else(|_| format!("{}/target/cli/release/pickle-fuzzer", verif_dir()));
